@@ -2,15 +2,21 @@
 (* (T) for C09: every recorded ImageRaw::new result, pixel() probe and every   *)
 (* draw of an Image over a raw image / sub-image chain (on a draining native   *)
 (* target and on a draw_iter-only target) is judged by the property-level      *)
-(* predicates of P_C09.  State: the image of the current case.                 *)
-(* The two counters pinned/patched only feed the drift statistic (which        *)
-(* transcription of ContiguousPixels the observed stream lengths agree with);  *)
-(* they never produce a verdict.                                               *)
+(* predicates of P_C09.  State: the image of the current case and the failing  *)
+(* observations of the case so far; ONE verdict per case is printed when the   *)
+(* case ends: codes = union of the codes, detail.items = every failing         *)
+(* observation with its own codes and detail.                                  *)
+(* The counters in st only feed statistics (among them which transcription of  *)
+(* ContiguousPixels the observed stream lengths agree with = drift); they      *)
+(* never produce a verdict.                                                    *)
 EXTENDS TraceBase, P_C09
-VARIABLES l, img, st
+VARIABLES l, img, st, acc, cur
+vars == <<l, img, st, acc, cur>>
 
 NoImg == [bpp |-> 0, ord |-> 0, w |-> 0, h |-> 0, data |-> <<>>]
-Init == l = 1 /\ img = NoImg /\ st = [draws |-> 0, fc_calls |-> 0, fc_len_as_pinned_machine |-> 0, fc_len_as_patched_machine |-> 0]
+Init == /\ l = 1 /\ img = NoImg /\ acc = <<>> /\ cur = 0
+        /\ st = [draws |-> 0, fc_calls |-> 0, fc_len_as_pinned_machine |-> 0, fc_len_as_patched_machine |-> 0,
+                 failing_observations |-> 0]
 
 FcOf(calls) == SelectSeq(calls, LAMBDA c : c.m = "fc")
 DrawDetail(e, tgt, calls) ==
@@ -19,59 +25,64 @@ DrawDetail(e, tgt, calls) ==
    mode |-> e.mode, at |-> e.at, size |-> e.size,
    root |-> <<abs[1][1], abs[1][2], abs[2][1], abs[2][2]>>,
    streams |-> [i \in 1..Len(FcOf(calls)) |-> [n |-> FcOf(calls)[i].n, area |-> FcOf(calls)[i].area]]]
+NewDetail(e, it) == [what |-> "new", bpp |-> e.bpp, w |-> e.w, h |-> e.h, item |-> it]
+Failing(items) == SelectSeq(items, LAMBDA x : x.codes # {})
 
-StepCase(e) == e.ev = "case" /\ img' = NoImg /\ st' = st
-StepNew(e) ==
-  /\ e.ev = "new"
-  /\ \A i \in 1..Len(e.items) :
-       Report(e.case, NewFails(e.bpp, e.w, e.h, e.items[i]),
-              [what |-> "new", bpp |-> e.bpp, w |-> e.w, h |-> e.h, item |-> e.items[i]])
-  /\ UNCHANGED <<img, st>>
+\* per event kind: the failing observations <<[codes, d]>> and the next image
+ItemsNew(e) == Failing([i \in 1..Len(e.items) |-> [codes |-> NewFails(e.bpp, e.w, e.h, e.items[i]), d |-> NewDetail(e, e.items[i])]])
 \* ImageRaw::new accepted `data`
-StepImage(e) ==
-  /\ e.ev = "image"
-  /\ Report(e.case, NewFails(e.bpp, e.w, e.h, <<Len(e.data), 1, -1>>),
-            [what |-> "new", bpp |-> e.bpp, w |-> e.w, h |-> e.h, item |-> <<Len(e.data), 1, -1>>])
-  /\ img' = IF Len(e.data) = ExpectedLen(e.w, e.h, e.bpp)
-            THEN [bpp |-> e.bpp, ord |-> e.ord, w |-> e.w, h |-> e.h, data |-> e.data] ELSE NoImg
-  /\ st' = st
+ItemsImage(e) == Failing(<< [codes |-> NewFails(e.bpp, e.w, e.h, <<Len(e.data), 1, -1>>), d |-> NewDetail(e, <<Len(e.data), 1, -1>>)] >>)
+ImageAfter(e) == IF Len(e.data) = ExpectedLen(e.w, e.h, e.bpp)
+                 THEN [bpp |-> e.bpp, ord |-> e.ord, w |-> e.w, h |-> e.h, data |-> e.data] ELSE NoImg
 \* ImageRaw::new rejected data of length e.len
-StepNoImage(e) ==
-  /\ e.ev = "noimage"
-  /\ Report(e.case, NewFails(e.bpp, e.w, e.h, <<e.len, 0, ExpectedLen(e.w, e.h, e.bpp)>>),
-            [what |-> "new", bpp |-> e.bpp, w |-> e.w, h |-> e.h, item |-> <<e.len, 0>>])
-  /\ UNCHANGED <<img, st>>
-StepPixels(e) ==
-  /\ e.ev = "pixels"
-  /\ IF img.bpp = 0 THEN TRUE
-     ELSE Report(e.case, PixelFails(img, e.probes),
-                 [what |-> "pixel", bpp |-> img.bpp, ord |-> img.ord, img |-> <<img.w, img.h>>,
-                  bad |-> SelectSeq(e.probes, LAMBDA p : p[3] # PixelOpt(img, <<p[1], p[2]>>))])
-  /\ UNCHANGED <<img, st>>
+ItemsNoImage(e) == Failing(<< [codes |-> NewFails(e.bpp, e.w, e.h, <<e.len, 0, ExpectedLen(e.w, e.h, e.bpp)>>), d |-> NewDetail(e, <<e.len, 0, -1>>)] >>)
+ItemsPixels(e) ==
+  IF img.bpp = 0 THEN <<>>
+  ELSE Failing(<< [codes |-> PixelFails(img, e.probes),
+                   d |-> [what |-> "pixel", bpp |-> img.bpp, ord |-> img.ord, img |-> <<img.w, img.h>>,
+                          bad |-> SelectSeq(e.probes, LAMBDA p : p[3] # PixelOpt(img, <<p[1], p[2]>>))]] >>)
+ItemsDraw(e) ==
+  IF img.bpp = 0 THEN <<>>
+  ELSE Failing(<< [codes |-> DrawFails(img, e.areas, e.mode, e.at, e.size, e.native), d |-> DrawDetail(e, "native", e.native)],
+                  [codes |-> DrawFails(img, e.areas, e.mode, e.at, e.size, e.dflt), d |-> DrawDetail(e, "draw_iter_only", e.dflt)] >>)
 StatAfterDraw(e) ==
+  IF img.bpp = 0 THEN st ELSE
   LET abs == AbsChain(img, e.areas)
       ra == <<abs[1][1], abs[1][2], abs[2][1], abs[2][2]>>
       one == Len(e.native) = 1 /\ e.native[1].m = "fc"
-  IN [draws |-> st.draws + 1, fc_calls |-> st.fc_calls + Len(FcOf(e.native)),
-      fc_len_as_pinned_machine |-> st.fc_len_as_pinned_machine +
-         (IF one /\ e.native[1].n = CPCount(img, ra, "pinned") THEN 1 ELSE 0),
-      fc_len_as_patched_machine |-> st.fc_len_as_patched_machine +
-         (IF one /\ e.native[1].n = CPCount(img, ra, "patched") THEN 1 ELSE 0)]
-StepDraw(e) ==
-  /\ e.ev = "draw"
-  /\ IF img.bpp = 0 THEN st' = st
-     ELSE /\ Report(e.case, DrawFails(img, e.areas, e.mode, e.at, e.size, e.native), DrawDetail(e, "native", e.native))
-          /\ Report(e.case, DrawFails(img, e.areas, e.mode, e.at, e.size, e.dflt), DrawDetail(e, "draw_iter_only", e.dflt))
-          /\ st' = StatAfterDraw(e)
-  /\ img' = img
-StepPanic(e) == e.ev = "panic" /\ UNCHANGED <<img, st>>     \* totality is C08's business; counted by the recorder
+  IN [st EXCEPT !.draws = @ + 1, !.fc_calls = @ + Len(FcOf(e.native)),
+        !.fc_len_as_pinned_machine = @ + (IF one /\ e.native[1].n = CPCount(img, ra, "pinned") THEN 1 ELSE 0),
+        !.fc_len_as_patched_machine = @ + (IF one /\ e.native[1].n = CPCount(img, ra, "patched") THEN 1 ELSE 0)]
+
+\* <<failing observations, img', st'>> of a non-case event; the CASE has no OTHER: an unknown
+\* event kind is a structural error (trace rejected)
+Known == {"case", "new", "image", "noimage", "pixels", "draw", "panic"}
+Eff(e) ==
+  CASE e.ev = "new"     -> <<ItemsNew(e), img, st>>
+    [] e.ev = "image"   -> <<ItemsImage(e), ImageAfter(e), st>>
+    [] e.ev = "noimage" -> <<ItemsNoImage(e), img, st>>
+    [] e.ev = "pixels"  -> <<ItemsPixels(e), img, st>>
+    [] e.ev = "draw"    -> <<ItemsDraw(e), img, StatAfterDraw(e)>>
+    [] e.ev = "panic"   -> <<<<>>, img, st>>     \* totality is C08's business; counted by the recorder
+
+Flush(case, a) ==
+  IF a = <<>> THEN TRUE
+  ELSE Verdict(case, UNION { a[i].codes : i \in 1..Len(a) }, [what |-> "case", items |-> a])
 
 Next == /\ l <= NRec
+        /\ Rec[l].ev \in Known
         /\ LET e == Rec[l] IN
-           StepCase(e) \/ StepNew(e) \/ StepImage(e) \/ StepNoImage(e) \/ StepPixels(e) \/ StepDraw(e) \/ StepPanic(e)
+           IF e.ev = "case"
+           THEN /\ Flush(cur, acc)
+                /\ acc' = <<>> /\ cur' = e.case /\ img' = NoImg /\ st' = st
+                /\ IF l = NRec THEN PrintT("STAT " \o ToJson(st)) ELSE TRUE
+           ELSE LET f == Eff(e)
+                    a == acc \o f[1]
+                    s2 == [f[3] EXCEPT !.failing_observations = @ + Len(f[1])] IN
+                /\ acc' = a /\ cur' = cur /\ img' = f[2] /\ st' = s2
+                /\ IF l = NRec THEN Flush(cur, a) /\ PrintT("STAT " \o ToJson(s2)) ELSE TRUE
         /\ l' = l + 1
-        /\ IF l = NRec THEN PrintT("STAT " \o ToJson(st')) ELSE TRUE
-Spec == Init /\ [][Next]_<<l, img, st>>
+Spec == Init /\ [][Next]_vars
 
 Done == IF TLCGet("stats").diameter = NRec + 1
         THEN PrintT("TRACE-ACCEPTED " \o ToString(NRec))
